@@ -140,6 +140,26 @@ class HipCalculate(_HipBase):
     def sample_inputs(self, rnd, cfg):
         return _sample_hip_inputs(rnd)
 
+    # What the reader leaves behind (ReadParameter -> ConvertUnits on the current tree): the VALUE is in the parameter's
+    # PreferredUnits, while CurrentUnits may name the unit the user wrote (area, volume, density, percent ... - the C06
+    # echo finding).  Calculate must give the stated results in every such state, so each input parameter is also
+    # verified with CurrentUnits set to another member of its unit kind (one parameter at a time).
+    def configs(self):
+        out = [("units=as-declared", {})]
+        h = hip()
+        for n in INPUTS:
+            p = getattr(h, n)
+            kind = type(p.PreferredUnits)
+            others = [u for u in kind if u is not p.PreferredUnits]
+            if others:
+                out.append((f"{n}.CurrentUnits={others[0].name}", {"_unit_of": n, "_unit": others[0]}))
+        return out
+
+    def heap(self, cfg):
+        if cfg.get("_unit_of"):
+            return {f"model.{cfg['_unit_of']}.CurrentUnits": cfg["_unit"]}
+        return {}
+
     def ensures(self, s, r):
         h, o = s.self, s.old.self
         V = o.reservoir_area.value * o.reservoir_thickness.value
